@@ -222,9 +222,14 @@ def history_cmds(rng, toks, h):
     came to hold its value: table sizes, array capacities, tombstones)"""
     v = toks_to_value(toks)
     cand = [(p, x) for p, x in paths(v) if isinstance(x, (dict, list))]
-    if not cand:
-        return []
     out = []
+    strs = [(p, x) for p, x in paths(v) if isinstance(x, bytes)]
+    if strs and rng.random() < 0.5:
+        # a string that was longer for a while (separately allocated storage from then on) and is set back to its bytes
+        for p, x in rng.sample(strs, min(len(strs), rng.choice([1, 2]))):
+            out += ["NAV %d 5 %s" % (h, " ".join(p)), "SSTR 5 x" + (x + b"-grown-for-a-while-" * rng.choice([1, 3, 20])).hex(), "SSTR 5 x" + x.hex()]
+    if not cand:
+        return out
     for p, x in rng.sample(cand, min(len(cand), rng.choice([1, 1, 2]))):
         k = rng.choice([1, 5, 12, 13, 24, 30, 50, 90, 180])
         out.append("NAV %d 5 %s" % (h, " ".join(p)))
